@@ -248,6 +248,20 @@ def case_fn(case):
                 lv = sw_p > 1e-9 * R['wnwidth']
                 if gp.shape == bp.shape and lv.any():
                     r.eq(gp[lv], bp[lv], 'binned-model', 'binner/aligned-model-short-%s/%s' % (side, cls), rows=keep)
+        # a model sampled exactly on the observation's own centres (in the row order of the file): still averaged over
+        # the observation's widths, like any other native grid
+        if p == list(range(n)) or p == perms[len(perms) // 2]:
+            wn_c = 10000.0 / keep[:, 0]
+            s_c = 0.01 * (1.0 + 0.2 * np.sin(np.arange(n) * 1.3) + 0.05 * np.arange(n))
+            oc = np.argsort(wn_c)
+            bc, _, sw_c, _ = ref.overlap_bin(wn_c[oc], ref.midpoint_widths(wn_c[oc]), s_c[oc], R['wn'], R['wnwidth'])
+            try:
+                gc = np.asarray(b.bindown(wn_c.copy(), s_c.copy())[1], float)
+                lv = sw_c > 1e-9 * R['wnwidth']
+                if gc.shape == bc.shape and lv.any():
+                    r.eq(gc[lv], bc[lv], 'binned-model', 'binner/model-on-observation-centres/' + cls, rows=keep)
+            except Exception as ex:
+                r.check(False, 'no-exception', 'binner/raised-on-centres/%s/%s' % (type(ex).__name__, cls), exc=repr(ex))
         # element-by-element alignment: bin i of the binned model is the bin of spectrum[i]
         r.check(np.asarray(g_val).shape == snap['spectrum'].shape, 'binned-model', 'binner/shape/' + cls)
         if kind == 'shuffled' or (kind == 'sorted-asc-wl'):
